@@ -88,6 +88,7 @@ def _content(out, row):
         has_kids = i + 1 < len(lst) and lst[i + 1]['d'] > n['d']
         res.append({'d': n['d'], 'n': n['n'], 'id': attrs.get('id', ''), 'cls': cls.split(),
                     'attrs': [[a[0], a[2]] for a in n['a'] if a[0] not in ('id', 'class', 'className')], 'text': n['t'].split(),          # the words of the text: formatting may only change the white space between them
+                    'tlines': [l.strip(' \t\r') for l in n['t'].split('\n') if l.strip(' \t\r')],      # ... and its lines as they are, without the indentation
 
                     'sc': bool(n['sc'] or (n['n'] in VOIDS and not has_kids))})
     return res
@@ -109,7 +110,8 @@ def _chunk(items):
                     attrs = [a for a in attrs if a[0] != 'select']       # documented xsl addon: select is dropped when there is content
                 if row['syntax'] == 'jsx':
                     attrs = [['htmlFor' if a[0] == 'for' else a[0], a[1]] for a in attrs]       # markup.attributes mapping of the jsx syntax
-                exp.append({'d': e['d'], 'n': e['n'], 'id': e['id'], 'cls': list(e['cls']), 'attrs': attrs, 'text': ' '.join(e['text']).split(), 'sc': bool(e['sc'])})
+                exp.append({'d': e['d'], 'n': e['n'], 'id': e['id'], 'cls': list(e['cls']), 'attrs': attrs, 'text': ' '.join(e['text']).split(), 'sc': bool(e['sc']),
+                            'tlines': [l.strip() for l in e['text'] if l.strip()]})
             flags = {'multiline_text_with_children': bool(v['mlkids']), 'leaf_inner_break': bool(row.get('leaf') or v['mltext']),
                      'field_text_with_children': bool(v['fieldkids'])}
             variants = [(v['abbr'], tid0 * 16 + ri)]
@@ -118,6 +120,10 @@ def _chunk(items):
                 # the last run of siblings written below an empty text node: no element is opened, the same tags at the same depths
                 head, tail = v['abbr'].rsplit('>', 1)
                 variants.append((head + '>{}>' + tail, tid0 * 16 + 8 + ri))
+            # the lines of a text are compared as they are unless children can be spliced into it (a text with a field: "a  b")
+            for x in exp:
+                if any('  ' in l for l in x['tlines']):
+                    x['tlines'] = None
             for abbr, tid in variants:
                 case = {'abbr': abbr, 'row': row['name'], 'flags': flags}
                 try:
@@ -132,6 +138,9 @@ def _chunk(items):
                 except ph.LexError as ex:
                     bad.append(('output is not well-formed markup', dict(case, output=out, lexer=str(ex))))
                     continue
+                for g, x in zip(got, exp):
+                    if x['tlines'] is None:
+                        g['tlines'] = None
                 if got != exp:
                     bad.append(('content differs', dict(case, expected=exp, actual=got, output=out)))
                     continue
